@@ -150,6 +150,19 @@ def make_plan(seed: int, tier: str, index: int) -> dict[str, Any]:
             text = gen.render_sections(secs, newline=nl)
         else:
             text = gen.render(d, newline=nl)
+        if g.random() < (0.6 if sub == "callerfault" else 0.25):
+            # sections in another order (an instrument section may come first)
+            secs_p = gen.sections(d) if "secs" not in dir() or True else None
+            lines_all = text.split(nl)
+            blocks: list[list[str]] = []
+            for ln in lines_all:
+                if ln.startswith("[") and ln.endswith("]"):
+                    blocks.append([])
+                if blocks:
+                    blocks[-1].append(ln)
+            if len(blocks) > 1 and all(b and b[-1] in ("}", "") for b in blocks):
+                g.shuffle(blocks)
+                text = nl.join(ln for b in blocks for ln in b if ln != "") + nl
         bom = g.random() < 0.2
         corpus.append({"id": i, "kind": "ok", "text": text, "bom": bom,
                        "headers": [t[0] for t in d["tracks"]], "resolution": d["resolution"]})
@@ -295,10 +308,10 @@ def make_plan(seed: int, tier: str, index: int) -> dict[str, Any]:
         # faults thrown by caller-supplied objects in the middle of a parse: the application's
         # log handler fails on the k-th record, the selection sequence raises on its k-th access,
         # the reader raises from read()
-        for _ci, _k, op in f.sample(all_ops, min(len(all_ops), f.randint(1, 3))):
+        for _ci, _k, op in f.sample(all_ops, min(len(all_ops), f.randint(1, 4))):
             exc = f.choice(["SimAbort", "MemoryError", "MemoryError", "KeyboardInterrupt", "OSError",
                             "RuntimeError"])
-            kind = f.choice(["log", "log", "log", "select", "select", "reader", "reenter", "reenter"])
+            kind = f.choice(["log", "log", "select", "select", "reader", "reader", "reader", "reenter", "reenter"])
             if kind == "reenter":
                 # the application's log handler parses another chart (same thread, nested inside
                 # the running parse) when it receives the k-th record
@@ -322,9 +335,14 @@ def make_plan(seed: int, tier: str, index: int) -> dict[str, Any]:
                     for kk in ("newline", "encoding", "io"):
                         op.pop(kk, None)
                     op.update({"via": "file", "reader": "simtext"})
-                    op["reader_fault"] = {"at": f.choice([1, 1, 2]),
-                                          "exc": f.choice([exc, "InterruptedError", "TimeoutError", "BlockingIOError"]),
-                                          "consume": f.choice([0, 0, 1, 17, 200, 5000])}
+                    txt = corpus[op["text"]]["text"]
+                    starts = [i + 1 for i, ch in enumerate(txt[:-1]) if ch == "\n" and txt[i + 1] == "["]
+                    op["reader_fault"] = {"at": f.choice([1, 1, 1, 2]),
+                                          "exc": f.choice([exc, "InterruptedError", "InterruptedError", "TimeoutError",
+                                                           "BlockingIOError"]),
+                                          # what the failing read had already consumed: nothing, a
+                                          # few characters, or everything up to a section boundary
+                                          "consume": f.choice([0, 1, 17, 200] + starts + starts)}
     elif sub == "cache_clear":
         knobs["cache_clear"] = sorted({(ci, k) for ci, k, _ in f.sample(all_ops, min(len(all_ops), f.randint(1, 4)))})
         knobs["cache_clear"] = [list(x) for x in knobs["cache_clear"]]
